@@ -1,5 +1,5 @@
 """C10 — BGP announcement eligibility (Model/BgpAds.v, bgp_decide)."""
-import json
+import json, os
 import vlib
 
 CLOSURE = ["Model/BgpAds.v", "Proofs/BgpAdsElig.v"]
@@ -24,6 +24,26 @@ def run(ctx):
         return cases
 
     cases = harness(n, ctx.seed, "h")
+
+    # the same iff over HISTORIES: the real speaker controller (TestVerifSpk machinery: handler results
+    # honoured as the reconcilers do), after every event the routes on the recording sessions must be
+    # those of the Services eligible by the statement.  Only the two C10 signatures are taken from it.
+    HIST_SIGS = {"bgp-announced-state-differs-from-eligibility", "bgp-local-duplicate-address-across-nodes"}
+    overlay = {"internal/layer2/zz_verif_spk.go": os.path.join(os.path.dirname(os.path.dirname(os.path.abspath(__file__))),
+                                                              "harness", "internal", "layer2", "zz_verif_spk.go")}
+
+    def hist(nh, seed, tag):
+        recs, hok, log = ctx.go_harness("speaker", ["zz_verif_bgp_test.go", "zz_verif_spk_test.go"], "TestVerifSpk$", n=nh, seed=seed,
+                                        tag=tag, extra_overlay=overlay)
+        for r in recs:
+            if r.get("t") == "fail" and r.get("sig") in HIST_SIGS:
+                ctx.oracle_fail(r["sig"], r.get("what", ""), r.get("replay"))
+            elif r.get("t") == "stat" and r["k"].startswith(("elig_", "ev_node", "histories")):
+                state["stats"]["hist:" + r["k"]] = state["stats"].get("hist:" + r["k"], 0) + r["v"]
+        if not hok and not any("does not build" in c for c in ctx.corr_broken):
+            ctx.corr_broken.append("harness TestVerifSpk (history part of C10) failed: " + log[-1500:])
+
+    hist(30 if ctx.tier == "quick" else 600, ctx.seed, "hist")
     mism = []
     if cases and ok:
         mism = ctx.coq_cases("Run_BgpAds", "ecase10", [c["coq"] for c in cases], shard=400 if ctx.tier == "quick" else 1800,
@@ -35,7 +55,8 @@ def run(ctx):
     st = state["stats"]
     if cases:
         for k in ("announce", "reason:RNoLocal", "reason:RNoEndpoints", "reason:RExcluded", "reason:RNetUnavail",
-                  "reason:RNotOwner", "conflicting_conditions_for_one_address", "multi_homed_address", "f18_hits", "route_checks"):
+                  "reason:RNotOwner", "conflicting_conditions_for_one_address", "multi_homed_address", "f18_hits", "route_checks",
+                  "hist:elig_history_checks", "hist:elig_services_expected_over_bgp", "hist:ev_node_flag_change"):
             if st.get(k, 0) == 0:
                 raise vlib.Broken("generator degenerate: counter %r is zero: %r" % (k, st))
 
@@ -45,6 +66,8 @@ def run(ctx):
             if ctx.violations:
                 return
         harness(50, ctx.seed, "sx", tier="thorough")
+        if not ctx.violations:
+            hist(300, ctx.seed * 1000 + 5, "shist")
 
     ctx.cov["correspondence"] = {"cases": len(cases), "mismatches": len(mism), "generator_counters": st,
                                  "decisions_compared": st.get("decisions", 0),
